@@ -13,6 +13,7 @@ def run(ctx):
     ctx.rule("R-WAKE", "state changes that request immediate action wake the job thread", floor=6)
     ctx.rule("R-PEER-255", "a frame from source address 255 cannot finish a broadcast session (its number would go to the wrong pool)", floor=6)
     ctx.rule("R-STATE-OWN", "session tables, session-number pools and the CA list are created per stack object (not shared through a class attribute)", floor=8)
+    ctx.rule("R-REPLY-ARMS", "a peer abort / end-of-message acknowledge finishes the send session at once (the pair is usable again)", floor=6)
     from rules import robust as R
     for fd in (False, True):
         L = T.Layer(ctx, fd=fd)
@@ -22,6 +23,7 @@ def run(ctx):
         TM.wake(ctx, L)
         R.bam_key_guard(ctx, L)
         R.state_own(ctx, L)
+        S.reply_arms(ctx, L)
         if fd:
             TM.pool_pair(ctx, L)
             TM.pool_owner(ctx, L)
